@@ -36,7 +36,7 @@ CLAIMS = {
  'C13': dict(text='Symbolic execution of cli::check, cli::tokenize and cli::create_project with the file system, the project and the output streams as nondeterministic stubs/events: every combination of enumeration, read, lexical and semantic outcomes; '
                   'solver-enumerated paths decide OK-line <=> Ok <=> no diagnostics and that any failing path or file fails the command. Replayed through the ironplcc binary.',
              tech='SMT-guided bounded symbolic execution of rustc MIR (z3) with nondeterministic environment stubs', sect='§4 C13',
-             note='Kernels K1-K3. Outside: clap argument parsing, process exit status mapping (Rust Termination), stream contents, echo.'),
+             note='Kernels K1, K2, K2b, K3, K4 (enumerate_files over a nondeterministic file system: a directory stands for every entry in it). Outside: clap argument parsing, process exit status mapping (Rust Termination), stream contents.'),
  'C14': dict(text='Symbolic execution of source::path_to_source with std::fs::read and encoding_rs::Encoding::decode* modelled by their documented contract over abstract files (stored encoding x text); '
                   'symbolic execution of the real lexer over every valid UTF-8 text up to N bytes (totality, tiling, character boundaries). Replayed through `ironplcc check` on files stored in each encoding.',
              tech='SMT-guided bounded symbolic execution of rustc MIR (z3); lexer DFA lifted to an ite-DAG', sect='§4 C14',
@@ -61,11 +61,11 @@ CLAIMS = {
                   'of preprocessor::remove_oscat_comment and of lsp_project::map_label; solver decides token tiling/text/line/col, offset preservation and span->position mapping for '
                   'every input in the bound; models are replayed through tokenize_program / the LSP binary.',
              tech='SMT-based bounded symbolic execution of rustc MIR (z3), lexer DFA lifted to an ite-DAG', sect='§4 C05',
-             note='Kernels K1,K2,K5. Outside: grammar-action span plumbing and rule labels (K3/K6), file-id fold (K4) unless listed in evidence; sources longer than the bound.'),
+             note='Kernels K1,K2,K5,K6 (terminal rendering: every label of a diagnostic is drawn in its own file at its own span; codespan SimpleFiles/emit as recording stubs). Outside: grammar-action span plumbing and rule labels (K3), file-id fold (K4); sources longer than the bound.'),
  'C08': dict(text='Solver queries over the lexer lifted from MIR: every case pattern of every reserved word, every string of the reference trivia language up to n bytes; '
                   'bounded symbolic execution of insert_keyword_statement_terminators over symbolic token types. Violations are replayed through tokenize_program.',
              tech='SMT queries over lexer transition relation lifted from MIR; bounded symbolic execution of MIR (z3)', sect='§4 C08',
-             note='Kernels K1a,K1b,K2,K4 (Eq/Hash consistency of Id and Type under case folding). Outside: equality of whole parsed libraries under re-spelling (grammar), textual keyword comparisons inside grammar actions unless listed.'),
+             note='Kernels K1a,K1b,K2,K4 (Eq/Hash consistency of Id and Type under case folding),K5 (words the grammar matches by text, every case pattern, through parse_program),K6 (semantic rule verdicts with every identifier occurrence optionally upper-cased). Outside: equality of whole parsed libraries under re-spelling (grammar), textual keyword comparisons inside grammar actions unless listed.'),
 }
 NOT_YET = 'check not built yet (work in progress)'
 def main():
